@@ -99,7 +99,7 @@ def make_run(p):
 
     def run():
         fs = mfs.MFS(ROOT, FILES, DIRS)
-        fs.init_concrete({"a.py": b"x = 1\n"})
+        fs.init_concrete({"a.py": b"def f(p):\n    return p\nx = f(1)\n"})
         undo_shims = mfs.install(fs)
         stub = PickleStub()
         saved_pickle = projmod.pickle
@@ -117,7 +117,7 @@ def make_run(p):
             p1 = rproject.Project(ROOT, save_history=True, save_objectdb=True, automatic_soa=False)
             for i in range(nchanges):
                 cs1 = change.ChangeSet("change %d" % i)
-                cs1.add_change(change.ChangeContents(p1.get_file("a.py"), "x = %d\n" % (i + 2)))
+                cs1.add_change(change.ChangeContents(p1.get_file("a.py"), "def f(p):\n    return p\nx = f(%d)\n" % (i + 2)))
                 p1.do(cs1)
             p1.pycore.analyze_module(p1.get_file("a.py"))
             p1.close()
@@ -125,7 +125,7 @@ def make_run(p):
             # session 2: reopen, change more, and die somewhere inside close()
             p2 = rproject.Project(ROOT, save_history=True, save_objectdb=True, automatic_soa=False)
             cs = change.ChangeSet("second session")
-            cs.add_change(change.ChangeContents(p2.get_file("a.py"), "y = 1\n"))
+            cs.add_change(change.ChangeContents(p2.get_file("a.py"), "def f(p):\n    return [p]\ny = f(1)\n"))
             p2.do(cs)
             new = _descs(p2.history)
             # count the write events of an uninterrupted close on a copy of the state
@@ -162,7 +162,6 @@ def make_run(p):
                 got = _descs(p3.history)
                 p3.get_pymodule(p3.get_file("a.py")).get_attributes()
                 p3.pycore.analyze_module(p3.get_file("a.py"))
-                list(p3.pycore.object_info.objectdb.files.keys()) if hasattr(p3.pycore.object_info, "objectdb") else None
             except (PathAbort, Unsupported):
                 raise
             except BaseException as e:
